@@ -118,7 +118,7 @@ static void gen(Plan* p, Rng* r, int tier, long idx) {
     int threads = (int)rng_range(r, 1, 3), queue = (int)rng_range(r, 0, 2), nclients = (int)rng_range(r, 1, 2);
     int nposts = (int)rng_range(r, 2, tier ? 16 : 10), i, nextjob = 0, minlimit = threads, nblocking = 0;
     int faults = (idx % 4) == 3;
-    int resize_n[8], nres = 0, grow_at = -1, grow_to = 0;
+    int resize_n[8], nres = 0, grow_at = -1, grow_to = 0, ndeps = 0;
     (void)tier;
     plan_set(p, "threads", threads); plan_set(p, "queue", queue); plan_set(p, "nclients", nclients);
     plan_set(p, "final_join", rng_coin(r, 1, 2));
@@ -132,7 +132,7 @@ static void gen(Plan* p, Rng* r, int tier, long idx) {
         int x = (int)rng_below(r, 100);
         if (x < 25) nest = 1; else if (x < 45 && nblocking < minlimit - 1) { nest = 2; nblocking++; }
         if (nest) child = nextjob++;
-        if (threads >= 2 && i + 1 < nposts && rng_coin(r, 1, 6)) waitfor = nextjob;   /* the job posted next */
+        if (i + 1 < nposts && ndeps + nblocking < (grow_at >= 0 ? grow_to : minlimit) - 1 && rng_coin(r, 1, 5)) { waitfor = nextjob; ndeps++; }   /* waits for the job posted next; like a nested blocking post it occupies a worker: same budget, counted against the limit the program ends with */
         plan_add(p, kind == 0 ? "add" : "tryadd", 6, (int64_t)client, (int64_t)id, (int64_t)nest, (int64_t)child, (int64_t)rng_below(r, 4), (int64_t)waitfor);
         if (rng_coin(r, 1, 5)) plan_add(p, "join", 1, (int64_t)rng_below(r, (uint64_t)nclients));
         if (nres && rng_coin(r, 1, 4)) { plan_add(p, "resize", 2, (int64_t)rng_below(r, (uint64_t)nclients), (int64_t)resize_n[--nres]); }
